@@ -349,8 +349,50 @@ static void recycled_tables_case(unsigned seq) {
   case_end(1);
 }
 
+// transforms of data scaled into the subnormal range: every operation then rounds to a multiple of 2^-1074, so the
+// accelerated and the portable transform may differ by a few of those units per butterfly level, but not by more
+// (a kernel that switches the CPU to flush-to-zero returns zeros instead)
+static void subnormal_fft_case(uint64_t m, int layout, int inverse, unsigned rep) {
+  char key[96];
+  snprintf(key, sizeof key, "%s_%s avx2~ref|subnormal inputs,absolute tolerance", layout ? "cplx" : "reim", inverse ? "ifft" : "fft");
+  if (!case_begin(key, "m=%" PRIu64 " rep=%u", m, rep)) return;
+  rng_t* r = crng();
+  const uint64_t n = 2 * m;
+  double* x = malloc(n * 8);
+  double* y = malloc(n * 8);
+  // ordinary data in [-1, 1) scaled by 2^-1040 (about 34 significant bits left), or by 2^-1000 (still normal)
+  const int sc = (rep & 1) ? -1000 : -1040;
+  for (uint64_t i = 0; i < n; i++) x[i] = y[i] = ldexp(rng_unit(r) * 2 - 1, sc);
+  void* t;
+  if (!layout) t = inverse ? (void*)new_reim_ifft_precomp((uint32_t)m, 0) : (void*)new_reim_fft_precomp((uint32_t)m, 0);
+  else t = inverse ? (void*)new_cplx_ifft_precomp((uint32_t)m, 0) : (void*)new_cplx_fft_precomp((uint32_t)m, 0);
+  if (!layout) {
+    if (inverse) { reim_ifft_ref(t, x); reim_ifft(t, y); } else { reim_fft_ref(t, x); reim_fft(t, y); }
+  } else {
+    if (inverse) { cplx_ifft_ref(t, x); cplx_ifft(t, y); } else { cplx_fft_ref(t, x); cplx_fft(t, y); }
+  }
+  // absolute budget: a rounding of at most half a unit of 2^-1074 per operation, amplified by at most 2 per level
+  const double unit = sc == -1040 ? 0x1p-1074 : ldexp(1.0, sc - 52 + (int)ilog2(n));
+  const double tol = 64.0 * (double)n * unit;
+  double worst = 0, nrm = 0;
+  for (uint64_t i = 0; i < n; i++) {
+    const double df = fabs(x[i] - y[i]);
+    if (df > worst) worst = df;
+    if (fabs(x[i]) > nrm) nrm = fabs(x[i]);
+  }
+  if (!(worst <= tol)) viol("pair", "%s %s (m=%" PRIu64 ") on data scaled by 2^%d: accelerated and reference transforms differ by %.3g (largest output %.3g, budget %.3g)", layout ? "cplx" : "reim", inverse ? "ifft" : "fft", m, sc, worst, nrm, tol);
+  gauge_max("worst_subnormal_pair_difference_over_budget", worst / tol);
+  cnt("subnormal_transform_pairs", 1);
+  sample("largest difference %.3g for outputs up to %.3g", worst, nrm);
+  free(x); free(y); free(t);
+  case_end(m >= 2);
+}
+
 void run_C07(void) {
   const int th = G.thorough;
+  for (uint64_t m = 1; m <= 65536; m <<= 1)
+    for (int v = 0; v < 4; v++)
+      for (unsigned rep = 0; rep < (th ? 6u : 2u); rep++) subnormal_fft_case(m, v & 1, v >> 1, rep);
   for (unsigned seq = 0; seq < (th ? 1500u : 96u); seq++) recycled_tables_case(seq);
   // q120 product kernels: reference vs AVX2 at EVERY length 0..10000
   for (int k = 0; k < N_KERNELS; k++)
